@@ -8,6 +8,7 @@ package coroutines
 //@ func ReadPromise
 //@ props C01 C02 C04
 //@ ghostdb coroutine
+//@ nopanic C13
 //@ requires c != nil && r != nil && r.ReadPromise != nil
 //@ ensures (res != nil) != (err != nil)
 //@ ensures err == nil ==> res.Kind == t_api.ReadPromise && res.ReadPromise != nil
@@ -16,6 +17,7 @@ package coroutines
 //@ func CompletePromise
 //@ props C01 C02 C03 C04
 //@ ghostdb coroutine
+//@ nopanic C13
 //@ requires c != nil && r != nil && r.CompletePromise != nil
 //@ requires r.CompletePromise.State == promise.Resolved || r.CompletePromise.State == promise.Rejected || r.CompletePromise.State == promise.Canceled
 //@ ensures (res != nil) != (err != nil)
@@ -27,6 +29,7 @@ package coroutines
 //@ func createPromiseAndTask
 //@ props C01 C02 C03 C04 C08
 //@ ghostdb coroutine
+//@ nopanic C13
 //@ requires c != nil && r != nil && createPromiseReq != nil
 //@ requires r.Kind == t_api.CreatePromise || r.Kind == t_api.CreatePromiseAndTask
 //@ requires r.Kind == t_api.CreatePromiseAndTask ==> taskCmd != nil
@@ -39,6 +42,7 @@ package coroutines
 //@ func CreatePromise
 //@ props C01 C02 C03 C04 C08
 //@ ghostdb coroutine
+//@ nopanic C13
 //@ requires c != nil && r != nil && r.CreatePromise != nil && r.Kind == t_api.CreatePromise
 //@ ensures (res != nil) != (err != nil)
 //@ ensures err == nil ==> res.Kind == t_api.CreatePromise && res.CreatePromise != nil && create_post(res.CreatePromise.Status, res.CreatePromise.Promise, r.CreatePromise)
@@ -46,6 +50,7 @@ package coroutines
 //@ func AcquireLock
 //@ props C02 C09
 //@ ghostdb coroutine
+//@ nopanic C13
 //@ overflow C09
 //@ requires c != nil && r != nil && r.AcquireLock != nil
 //@ ensures (res != nil) != (err != nil)
@@ -55,6 +60,7 @@ package coroutines
 //@ func ReleaseLock
 //@ props C02 C09
 //@ ghostdb coroutine
+//@ nopanic C13
 //@ requires c != nil && r != nil && r.ReleaseLock != nil
 //@ ensures (res != nil) != (err != nil)
 //@ ensures err == nil ==> res.Kind == t_api.ReleaseLock && res.ReleaseLock != nil
@@ -63,6 +69,7 @@ package coroutines
 //@ func HeartbeatLocks
 //@ props C02 C09
 //@ ghostdb coroutine
+//@ nopanic C13
 //@ requires c != nil && r != nil && r.HeartbeatLocks != nil
 //@ ensures (res != nil) != (err != nil)
 //@ ensures err == nil ==> res.Kind == t_api.HeartbeatLocks && res.HeartbeatLocks != nil && res.HeartbeatLocks.Status == t_api.StatusOK
@@ -71,6 +78,7 @@ package coroutines
 //@ func ClaimTask
 //@ props C02 C07
 //@ ghostdb coroutine
+//@ nopanic C13
 //@ overflow C07
 //@ requires c != nil && r != nil && r.ClaimTask != nil && r.ClaimTask.ProcessId != "" && r.ClaimTask.Ttl >= 0
 //@ ensures (res != nil) != (err != nil)
@@ -80,6 +88,7 @@ package coroutines
 //@ func CompleteTask
 //@ props C02 C07
 //@ ghostdb coroutine
+//@ nopanic C13
 //@ requires c != nil && r != nil && r.CompleteTask != nil
 //@ ensures (res != nil) != (err != nil)
 //@ ensures err == nil ==> res.Kind == t_api.CompleteTask && res.CompleteTask != nil
@@ -88,6 +97,7 @@ package coroutines
 //@ func HeartbeatTasks
 //@ props C02 C07
 //@ ghostdb coroutine
+//@ nopanic C13
 //@ requires c != nil && r != nil && r.HeartbeatTasks != nil
 //@ ensures (res != nil) != (err != nil)
 //@ ensures err == nil ==> res.Kind == t_api.HeartbeatTasks && res.HeartbeatTasks != nil && res.HeartbeatTasks.Status == t_api.StatusOK
@@ -96,6 +106,7 @@ package coroutines
 //@ func ReadSchedule
 //@ props C02 C10 C20
 //@ ghostdb coroutine
+//@ nopanic C13
 //@ requires c != nil && r != nil && r.ReadSchedule != nil
 //@ ensures (res != nil) != (err != nil)
 //@ ensures err == nil ==> res.Kind == t_api.ReadSchedule && res.ReadSchedule != nil
@@ -104,6 +115,7 @@ package coroutines
 //@ func DeleteSchedule
 //@ props C02 C10
 //@ ghostdb coroutine
+//@ nopanic C13
 //@ requires c != nil && r != nil && r.DeleteSchedule != nil
 //@ ensures (res != nil) != (err != nil)
 //@ ensures err == nil ==> res.Kind == t_api.DeleteSchedule && res.DeleteSchedule != nil
@@ -113,6 +125,7 @@ package coroutines
 //@ func CreateSchedule
 //@ props C02 C10 C20
 //@ ghostdb coroutine
+//@ nopanic C13
 //@ requires c != nil && r != nil && r.CreateSchedule != nil
 //@ ensures (res != nil) != (err != nil)
 //@ ensures err == nil ==> res.Kind == t_api.CreateSchedule && res.CreateSchedule != nil && res.CreateSchedule.Schedule != nil
@@ -123,6 +136,7 @@ package coroutines
 //@ func CreateCallback
 //@ props C02 C05 C20
 //@ ghostdb coroutine
+//@ nopanic C13
 //@ requires c != nil && r != nil && r.CreateCallback != nil && r.CreateCallback.Recv != nil
 //@ ensures (res != nil) != (err != nil)
 //@ ensures err == nil ==> res.Kind == t_api.CreateCallback && res.CreateCallback != nil
@@ -135,6 +149,7 @@ package coroutines
 //@ func CreateSubscription
 //@ props C02 C05 C20
 //@ ghostdb coroutine
+//@ nopanic C13
 //@ requires c != nil && r != nil && r.Kind == t_api.CreateSubscription && r.CreateSubscription != nil && r.CreateSubscription.Recv != nil
 //@ ensures (res != nil) != (err != nil)
 //@ ensures err == nil ==> res.Kind == t_api.CreateSubscription && res.CreateSubscription != nil
@@ -146,32 +161,38 @@ package coroutines
 //@ func TimeoutLocks$1
 //@ props C09
 //@ ghostdb coroutine
+//@ nopanic C13
 //@ requires c != nil && tags != nil
 
 //@ func TimeoutPromises$1
 //@ props C01 C04 C05 C08
 //@ ghostdb coroutine
+//@ nopanic C13
 //@ requires c != nil && config != nil && tags != nil
 
 //@ func TimeoutTasks$1
 //@ props C07 C08
 //@ ghostdb coroutine
+//@ nopanic C13
 //@ requires c != nil && config != nil && tags != nil
 
 //@ func EnqueueTasks$1
 //@ props C07 C08
 //@ ghostdb coroutine
+//@ nopanic C13
 //@ requires c != nil && config != nil && tags != nil
 
 //@ func SchedulePromises$1
 //@ props C01 C08 C10
 //@ ghostdb coroutine
+//@ nopanic C13
 //@ overflow C10
 //@ requires c != nil && config != nil && tags != nil
 
 //@ func completePromise$1
 //@ props C01 C04 C05 C08
 //@ ghostdb coroutine
+//@ nopanic C13
 //@ requires c != nil && cmd != nil && cmd.Value.Headers != nil && cmd.Value.Data != nil
 //@ requires cmd.State == promise.Resolved || cmd.State == promise.Rejected || cmd.State == promise.Canceled || cmd.State == promise.Timedout
 //@ requires cmd.State == promise.Timedout ==> false
@@ -180,6 +201,7 @@ package coroutines
 //@ func createPromise$1
 //@ props C01 C08 C10
 //@ ghostdb coroutine
+//@ nopanic C13
 //@ requires c != nil && promiseCmd != nil && promiseCmd.Param.Headers != nil && promiseCmd.Param.Data != nil && promiseCmd.Tags != nil
 //@ requires taskCmd != nil ==> taskCmd.Mesg != nil && (taskCmd.State == task.Init || taskCmd.State == task.Claimed) && (taskCmd.State != task.Claimed || taskCmd.ProcessId != nil)
 //@ ensures [await C08 C10] err == nil ==> result0 != nil && result0.Store != nil && len(result0.Store.Results) >= 1 && result0.Store.Results[0] != nil
